@@ -92,12 +92,6 @@ Live(id) == id \in DOMAIN objs /\ ~objs[id].dead
 Put(id, o) == [x \in (DOMAIN objs) \cup {id} |-> IF x = id THEN o ELSE objs[x]]
 Del(id) == [x \in (DOMAIN objs) \ {id} |-> objs[x]]
 
-FamOfKind(kind) ==
-    IF kind \in {"QV", "RSQ256", "RSQ512"} THEN "Q"
-    ELSE IF kind = "QB" THEN "QB"
-    ELSE IF kind \in {"BV", "BVM", "RSN", "RSW", "DA0", "DA1"} THEN "B"
-    ELSE "T"
-
 ---------------------------------------------------------------------------
 (* Reporting *)
 
@@ -507,15 +501,6 @@ Mut ==
                                  Put(e.o, [o EXCEPT !.line = 0, !.seq = B2, !.hist = hist]))
                     ELSE Advance(ResBad(Mis(e, o, pre \o ".ok", 0, 0, e.out, {0}), {pre \o ".ok"}),
                                  Put(e.o, [o EXCEPT !.dead = TRUE]))
-
-ConvKind(m, srckind) ==
-    IF m \in {"clone", "serde", "collect_iter"} THEN srckind
-    ELSE IF m = "into_bv" THEN "BV" ELSE IF m = "into_bvm" THEN "BVM"
-    ELSE IF m \in {"rs_narrow", "rs_narrow_from"} THEN "RSN"
-    ELSE IF m \in {"rs_wide", "rs_wide_from"} THEN "RSW"
-    ELSE IF m = "da0" THEN "DA0" ELSE IF m = "da1" THEN "DA1"
-    ELSE IF m = "qbuild" THEN "QV" ELSE IF m = "rsq256" THEN "RSQ256" ELSE IF m = "rsq512" THEN "RSQ512"
-    ELSE srckind
 
 Conv ==
     /\ IsEv("conv")
